@@ -26,6 +26,33 @@ namespace tbox {
 namespace http {
 namespace server {
 
+namespace {
+//! Content-Length = 1*DIGIT. Anything else (empty, sign, blanks, letters, a value that
+//! does not fit into size_t) makes the request malformed; it must never throw.
+bool ParseContentLength(const std::string &str, size_t &value)
+{
+    if (str.empty())
+        return false;
+
+    const size_t max_value = std::numeric_limits<size_t>::max();
+    size_t result = 0;
+    for (char c : str) {
+        if (c < '0' || c > '9')
+            return false;
+        size_t digit = c - '0';
+        if (result > (max_value - digit) / 10)
+            return false;
+        result = result * 10 + digit;
+    }
+
+    if (result == max_value)    //! reserved: means "no Content-Length given"
+        return false;
+
+    value = result;
+    return true;
+}
+}
+
 RequestParser::~RequestParser()
 {
     CHECK_DELETE_RESET_OBJ(sp_request_);
@@ -132,8 +159,12 @@ size_t RequestParser::parse(const void *data_ptr, size_t data_size)
             auto head_value = util::string::Strip(str.substr(head_value_start_pos, head_value_end_pos - head_value_start_pos));
             sp_request_->headers[head_key] = head_value;
 
-            if (head_key == "Content-Length")
-                content_length_ = std::stoi(head_value);
+            if (head_key == "Content-Length") {
+                if (!ParseContentLength(head_value, content_length_)) {
+                    state_ = State::kFail;
+                    return pos;
+                }
+            }
 
             pos = end_pos + 2;
         }
